@@ -213,7 +213,7 @@ theorem isError_sound_partial (cfg : Cfg) (pos : ErrPos) (t : ErrTy) (h : isErro
     (hj : pos = .joinArg → cfg.typedNilFixed = true ∨ t ≠ .namedPtrRecv)
     (ht : pos = .toErrorArg → cfg.errRecvFixed = true ∨ t ≠ .namedPtrRecv) :
     compilesAt pos t = true := by
-  obtain ⟨z, l, e, r, n⟩ := cfg
+  obtain ⟨z, l, e, r, n, lf⟩ := cfg
   cases e <;> cases r <;> cases n <;> cases pos <;> cases t <;>
     first
     | rfl
@@ -228,7 +228,7 @@ example : isError {} .toErrorArg .namedNilable = true ∧ compilesAt .toErrorArg
 theorem isError_fixed (cfg : Cfg) (h1 : cfg.errTypeFixed = true) (h2 : cfg.errRecvFixed = true)
     (h3 : cfg.typedNilFixed = true) (pos : ErrPos) (t : ErrTy) :
     isError cfg pos t = shouldAccept pos t ∧ (isError cfg pos t = true → compilesAt pos t = true) := by
-  obtain ⟨z, l, e, r, n⟩ := cfg
+  obtain ⟨z, l, e, r, n, lf⟩ := cfg
   subst h1 h2 h3
   cases pos <;> cases t <;> simp [isError, shouldAccept, compilesAt, implementsError]
 
